@@ -168,9 +168,36 @@ var (
 	c18Install    sync.Once
 )
 
+// every execution uses host names of its own: rs/dnscache merges concurrent lookups of one
+// name process-wide (a package-level singleflight group), so a refresh goroutine of an
+// earlier attacker that is still looking a name up could hand its (old) answer to this case.
+var c18Epoch int
+
+func c18Rename(c c18Case, epoch int) c18Case {
+	ren := func(s string) string { return strings.ReplaceAll(s, ".c18.test", fmt.Sprintf(".e%d.c18.test", epoch)) }
+	out := c
+	out.Hosts, out.ConnectTo, out.Targets = nil, nil, nil
+	for _, h := range c.Hosts {
+		out.Hosts = append(out.Hosts, c18Host{Name: ren(h.Name), Addrs: h.Addrs})
+	}
+	for _, m := range c.ConnectTo {
+		nm := c18Map{Src: ren(m.Src)}
+		for _, d := range m.Dsts {
+			nm.Dsts = append(nm.Dsts, ren(d))
+		}
+		out.ConnectTo = append(out.ConnectTo, nm)
+	}
+	for _, t := range c.Targets {
+		out.Targets = append(out.Targets, ren(t))
+	}
+	return out
+}
+
 func evalC18(c c18Case) (multi bool, err error) {
 	c18ResolverMu.Lock()
 	defer c18ResolverMu.Unlock()
+	c18Epoch++
+	c = c18Rename(c, c18Epoch)
 	// the fake resolver is installed once per process and never removed (a refresh goroutine
 	// of an earlier attacker may still be reading net.DefaultResolver); only its table changes
 	c18Install.Do(func() { net.DefaultResolver = &net.Resolver{PreferGo: true, Dial: c18DNS.dial} })
